@@ -21,6 +21,16 @@ GEN_SPEC = {"imports": ["From God Require Import C01.GenEnv."], "items": [
     {"kind": "calls", "file": "lib/breaker/googlebreaker.go", "func": "googlePromise.Accept", "as": "paccept_calls"},
     {"kind": "calls", "file": "lib/breaker/googlebreaker.go", "func": "googlePromise.Reject", "as": "preject_calls"},
     {"kind": "calls", "file": "api/handler/breakerhandler.go", "func": "BreakerHandler", "as": "http_calls"},
+    {"kind": "calls", "file": "rpc/internal/serverinterceptors/breakerinterceptor.go", "func": "UnaryBreakerInterceptor",
+     "as": "srv_int_calls"},
+    {"kind": "calls", "file": "rpc/internal/clientinterceptors/breakerinterceptor.go", "func": "BreakerInterceptor",
+     "as": "cli_int_calls"},
+    {"kind": "calls", "file": "api/internal/response/withcoderesponsewriter.go", "func": "WithCodeResponseWriter.WriteHeader",
+     "as": "cw_writeheader_calls"},
+    {"kind": "calls", "file": "api/internal/response/withcoderesponsewriter.go", "func": "WithCodeResponseWriter.Write",
+     "as": "cw_write_calls"},
+    {"kind": "calls", "file": "api/internal/response/withcoderesponsewriter.go", "func": "WithCodeResponseWriter.Flush",
+     "as": "cw_flush_calls"},
     {"kind": "calls", "file": "lib/breaker/breakers.go", "func": "Get", "as": "get_calls"},
     {"kind": "func", "file": "lib/store/redis/redis.go", "name": "acceptable", "as": "redis_acceptable"},
     {"kind": "func", "file": "lib/store/sqlx/conn.go", "name": "commonConn.acceptable", "as": "sqlx_acceptable",
@@ -36,8 +46,12 @@ RULE = ("breaker histories of 20-140 events over 1-3 registry names: Begin(kind 
         "failure phases) interleaved across calls, Allow/Accept/Reject, advances in {0,<250ms,k*250ms-1..+1,2.5s,9.75s,"
         "10s-1,10s,10s+1,>10s}; coins uniform, 0, 2^53-1 and the three 53-bit values around the drop ratio computed by the "
         "generator's own simulation; plus the finite sets: gRPC codes 0..16, sqlx {nil,ErrNoRows,ErrTxDone,Canceled,other} "
-        "with/without a user accept predicate, redis {nil,Canceled,redis.Nil,other}, HTTP statuses (quick: 60 incl. "
-        "100,200,404,499,500,501,503,599; thorough: all 100..599); non-trivial = a history with at least one rejection and "
+        "with/without a user accept predicate, redis {nil,Canceled,redis.Nil,other}, HTTP statuses (quick: ~40 incl. "
+        "100,200,404,499,500,501,503,599; thorough: all 100..599), HTTP response shapes (Write without WriteHeader, nothing "
+        "written, WriteHeader+Write+Flush+Write, Write+Flush+Write, Flush only, panic under RecoverHandler) sustained 200 "
+        "requests each through one BreakerHandler with WithCodeResponseWriter.Code probed, server UnaryBreakerInterceptor "
+        "(inside UnaryCrashInterceptor) and client BreakerInterceptor with every gRPC code 0..16 returned and panic(string|"
+        "error), 200 calls each; non-trivial = a history with at least one rejection and "
         "one completed call, or any predicate case; distinct = distinct canonical case JSON")
 TRUSTED = ["IEEE-754 binary64 division of the Go build = Coq PrimFloat (drop ratio); rand.Float64 = Int63/2^63 with the "
            "scripted source returning m<<10, so the coin is exactly m/2^53",
@@ -163,8 +177,16 @@ def pred_cases(rng, tier):
     if tier == "thorough":
         https = list(range(100, 600))
     else:
-        https = sorted(set(HTTP_FIXED + [rng.randrange(100, 600) for _ in range(47)]))
-    out += [{"kind": "p", "which": 3, "arg": s} for s in https]
+        https = sorted(set(HTTP_FIXED + [rng.randrange(100, 600) for _ in range(30)]))
+    out += [{"kind": "p", "which": 3, "arg": s, "shape": 0} for s in https]
+    # every response shape through one BreakerHandler, 200 requests each
+    out += [{"kind": "h", "shape": k, "arg": 0} for k in (1, 2, 4, 5, 6)]
+    out += [{"kind": "h", "shape": k, "arg": s} for k in (0, 3)
+            for s in sorted(set([200, 404, 499, 500, 503] + [rng.randrange(200, 600) for _ in range(4)]))]
+    # RPC breaker interceptors: every gRPC code returned, and panics (string / error)
+    for which in (5, 6):
+        out += [{"kind": "p", "which": which, "arg": c} for c in range(17)]
+        out += [{"kind": "p", "which": which, "arg": 100 * p + c} for p in (1, 2) for c in (0, 5)]
     return out
 
 
@@ -175,19 +197,21 @@ def generate(rng, tier, n):
     return cases
 
 
-PKG = {0: "./rpc/internal/codes", 1: "./lib/store/sqlx", 2: "./lib/store/redis", 3: "./api/handler"}
+PKG = {0: "./rpc/internal/codes", 1: "./lib/store/sqlx", 2: "./lib/store/redis", 3: "./api/handler",
+       5: "./rpc/internal/serverinterceptors", 6: "./rpc/internal/clientinterceptors"}
 
 
 def drive(cases, tier):
     obs = [None] * len(cases)
     logs = []
-    groups = [("b", None, "./lib/breaker")] + [("p", w, PKG[w]) for w in sorted(PKG)]
+    groups = [("b", None, "./lib/breaker"), ("h", None, "./api/handler")] + [("p", w, PKG[w]) for w in sorted(PKG)]
     for kind, which, pkg in groups:
         idx = [i for i, c in enumerate(cases) if c["kind"] == kind and (which is None or c["which"] == which)]
         if not idx:
             continue
         # the sqlx / redis / api-handler packages also hold other properties' drivers: ours is TestVerifDriverC01 there
-        run = "^TestVerifDriverC01$" if pkg in ("./lib/store/sqlx", "./lib/store/redis", "./api/handler") else "^TestVerifDriver$"
+        run = "^TestVerifDriverC01$" if pkg in ("./lib/store/sqlx", "./lib/store/redis", "./api/handler",
+                                               "./rpc/internal/serverinterceptors", "./rpc/internal/clientinterceptors") else "^TestVerifDriver$"
         o, lg = run_driver(pkg, [cases[i] for i in idx], name="C01%s%s_%s" % (kind, "" if which is None else which, tier),
                            timeout=600, run=run)
         logs.append(lg[-1500:])
@@ -203,6 +227,8 @@ OUT = ["OK", "AcceptableErr", "UnacceptableErr", "Panics"]
 
 
 def encode(case, obs):
+    if case["kind"] == "h":
+        return "HCase %s %s %s %s" % (cnat(case["shape"]), cZ(case["arg"]), cZ(obs.get("code", -1)), cbool(bool(obs.get("ok"))))
     if case["kind"] == "p":
         return "PCase %s %s %s" % (cnat(case["which"]), cZ(case["arg"]), cbool(bool(obs.get("ok"))))
     evs = []
@@ -228,13 +254,15 @@ def encode(case, obs):
 
 
 def nontrivial(case, obs):
-    if case["kind"] == "p":
+    if case["kind"] in ("p", "h"):
         return True
     rows = obs.get("rows", [])
     return any(r[0] in (2, 3, 5) for r in rows) and any(r[0] >= 10 for r in rows)
 
 
 def bucket(case, obs):
+    if case["kind"] == "h":
+        return ["kind:h", "shape:%d" % case["shape"], "cutoff:%s" % (not obs.get("ok"))]
     if case["kind"] == "p":
         return ["kind:p%d" % case["which"], "pred:%s" % obs.get("ok")]
     out = ["kind:b", "names:%d" % len({e[1] for e in case["events"] if e[0] in (0, 2)})]
@@ -244,6 +272,10 @@ def bucket(case, obs):
 
 
 def explain(case, obs):
+    if case["kind"] == "h":
+        return ("200 requests answered with one response shape through one BreakerHandler: a shape whose status is below 500 "
+                "(explicit, or the implicit 200 of an unwritten / Write-only / streamed response) was cut off with 503, or a "
+                "status >= 500 / recovered panic never was (C01.Exec.spec_ok HCase, c01_http_mark)")
     if case["kind"] == "p":
         return ("an outcome the statement declares benign (HTTP < 500, sql.ErrNoRows/ErrTxDone, redis.Nil, context.Canceled, "
                 "gRPC codes other than DeadlineExceeded/Internal/Unavailable/DataLoss/Unimplemented) is treated as a failure by "
